@@ -8,7 +8,7 @@
                               + - * / = , ( ) [ ] > … (everything except letters, underscore, backtick, { and <)
        SVar NAME idx          NAME   or   NAME[body]         (body: any text without `]`, e.g. " -12 ", "+1")
        SBra k w1 NAME w2 idx  { NAME } / < NAME > with inner blanks w1, w2, and an optional [body]
-       SFun NAME ws           a function name followed by blanks; the next token starts with "("
+       SFun NAME ws           a function name — possibly namespaced: np.sqrt — followed by blanks; the next token starts with "("
        SKw k                  a Python keyword (if else and or not in is …) between non-word characters
        SVerb body             a backticked fragment `body` (no backtick or newline inside)
    `render` is the statement text, `items_of` what term_re.finditer is claimed to return on it (CodeGenSrcFacts.scan_render
@@ -85,7 +85,7 @@ Definition stok_ok (pw : bool) (t : stok) (rest : string) : bool :=
   | SBra _ w1 n w2 None =>
     ident n && all_chars is_space w1 && all_chars is_space w2 && head_ok (fun c => negb (Ascii.eqb c "[")) rest
   | SBra _ w1 n w2 (Some b) => ident n && all_chars is_space w1 && all_chars is_space w2 && idx_ok (Some b)
-  | SFun n ws => ident n && negb (in_kw n KW) && all_chars is_space ws && head_is "(" rest
+  | SFun n ws => fname n && all_chars is_space ws && head_is "(" rest        (* exp, f, np.sqrt, a.b.c … *)
   | SKw k => negb pw && in_kw k KW && head_ok (fun c => negb (is_word c)) rest &&
              head_ok (fun c => negb (Ascii.eqb c "[")) (skip_ws rest)
   | SVerb b => match b with
